@@ -89,14 +89,35 @@ class FunctionInfo:
         return '<fn {}>'.format(self.qname)
 
 
+ALIASES = {}   # canonical private helper name -> current name (filled by sa.roles per run)
+
+
+class _AliasDict(dict):
+    """dict whose lookups accept the canonical name of a renamed private helper."""
+
+    def _k(self, k):
+        if isinstance(k, str) and k not in self.keys() and k in ALIASES:
+            return ALIASES[k]
+        return k
+
+    def __getitem__(self, k):
+        return dict.__getitem__(self, self._k(k))
+
+    def get(self, k, d=None):
+        return dict.get(self, self._k(k), d)
+
+    def __contains__(self, k):
+        return dict.__contains__(self, self._k(k))
+
+
 class ClassInfo:
     def __init__(self, module, node):
         self.module = module
         self.node = node
         self.name = node.name
         self.qname = '{}:{}'.format(module.name, node.name)
-        self.methods = {}      # name -> FunctionInfo (last definition wins, setters kept apart)
-        self.setters = {}
+        self.methods = _AliasDict()   # name -> FunctionInfo (setters kept apart)
+        self.setters = _AliasDict()
         self.class_assigns = {}  # name -> value ast
         self.base_exprs = [ast.unparse(b) for b in node.bases]
         self.bases = []        # resolved ClassInfo (repo classes only)
@@ -176,7 +197,7 @@ class Module:
         _set_parents(self.tree)
         self.imports = {}     # local name -> dotted target
         self.star_imports = []
-        self.functions = {}
+        self.functions = _AliasDict()
         self.classes = {}
         self.assigns = {}     # module level NAME = value
         self.all_functions = []  # every FunctionInfo incl. methods, nested, lambdas
